@@ -203,6 +203,15 @@ fn mean_ci<F: Fl>(case: &Value) -> Value {
                     "lfold1" | "rfold1" | "rfold1_assign" | "lfold7" | "rfold7" | "tree" => {
                         let s = merged!($T); reg = Some(s); s.ci_mean(conf)
                     }
+                    // the sample merged with itself `doublings` times (s = s + s), then delivered `extra` more times one by one:
+                    // len * (2^doublings + extra) observations in O(doublings) steps - counts beyond 2^32
+                    "doubling" => {
+                        let mut s = $T::<F>::from_iter(&a)?;
+                        for _ in 0..case["doublings"].as_u64().unwrap() { s = s + s; }
+                        for _ in 0..case["extra"].as_u64().unwrap() { for x in &a { StatisticsOps::append(&mut s, *x)?; } }
+                        reg = Some(s);
+                        s.ci_mean(conf)
+                    }
                     // many bulk calls with small batches on the same, already populated state
                     "extend4" => {
                         let mut s = $T::<F>::new();
@@ -220,6 +229,7 @@ fn mean_ci<F: Fl>(case: &Value) -> Value {
                 reg = Some(s);
             }
             let s = reg.unwrap();
+            stats["count_hex"] = json!(format!("{:x}", s.sample_count()));
             if style.starts_with("ops") {
                 stats["count"] = json!(<$T<F> as StatisticsOps<F>>::sample_count(&s));
                 stats["mean"] = stat(|| <$T<F> as StatisticsOps<F>>::sample_mean(&s));
